@@ -48,6 +48,17 @@ func init() {
 		return one(st, &IfaceV{})
 	})
 	reg("(*sync.Pool).Put", noop)
+	// util.RandomString(n): one fixed representative of the documented alphabet (bound: the random part of v1 event IDs
+	// is not varied; distinct calls give distinct strings)
+	reg("github.com/matrix-org/util.RandomString", func(e *Engine, st *State, args []Value, fn *ssa.Function) []Outcome {
+		n := e.mustConcInt(args[0])
+		e.cryptoCounter++
+		s := strconv.Itoa(e.cryptoCounter)
+		for len(s) < n {
+			s = "R" + s
+		}
+		return one(st, e.StrConst(s[len(s)-n:]))
+	})
 	reg("(*sync.Once).Do", func(e *Engine, st *State, args []Value, fn *ssa.Function) []Outcome {
 		p := args[0].(*PtrV)
 		key := "once:" + strconv.Itoa(p.Obj) + pathKey(p.Path)
